@@ -7,7 +7,7 @@ use crate::util::*;
 use proptest::prelude::*;
 use serde::{Deserialize, Serialize};
 use serde_json::json;
-use text2num::replace_numbers_in_text;
+use text2num::{replace_numbers_in_text, LangInterpreter};
 
 #[derive(Clone, Debug, Hash, Serialize, Deserialize)]
 pub struct ThSel {
@@ -55,7 +55,7 @@ impl Property for C09 {
     }
     fn assumptions(&self) -> Vec<String> {
         vec![
-            "the linking vocabulary is the library's published INSIGNIFICANT list per language (copied into the harness at design time)".into(),
+            "a word is a linking word iff the language's published vocabulary says so (is_linking on the lowercase form); the generator draws linking words from a copy of those lists".into(),
             "gaps containing a conjunction or decimal-separator word, or a number-like word that is in no occurrence, are not decided by the statement: the model abstains there".into(),
         ]
     }
@@ -170,7 +170,9 @@ impl Property for C09 {
                     und = true;
                     continue;
                 }
-                if v.linking.contains(&lo) {
+                // the linking vocabulary is whatever the language publishes (LangInterpreter::is_linking on the
+                // lowercase form), so that adding or removing a linking word is not reported as a policy violation
+                if lg.is_linking(lo) {
                     continue;
                 }
                 if filler_words.contains(lo) {
